@@ -42,7 +42,7 @@ PROPS = {
         hosts={'src/utils.rs': ['c14_utils.rs'], 'src/xls.rs': ['c14_xls.rs'], 'src/xlsb/mod.rs': ['c14_xlsb.rs']},
         functions=['utils::push_column', 'utils::FTAB/FTAB_ARGC', 'xls::parse_formula', 'xls::push_area/push_area_corner', 'xlsb::parse_formula', 'xlsb::push_area_corner'],
         stubs=['utils::push_column -> k_kcommon::model_push_column_l{1,2,3} inside the token-rendering harnesses (the real push_column is decided against the same closed form by c14_*_push_column_*)'],
-        bounds={'push_column': 'all columns 0..16383 quick (0..65535 thorough), one query per letter count',
+        bounds={'push_column': 'columns 0..701 quick (1 and 2 letters), 0..65535 thorough, one query per letter count (the 3-letter query needs 10 GB and 4-6 min: thorough)',
                 'tokens': 'one token sequence per harness (concrete token ids, concrete representative rows {0,4,8,9,98,65534,65535 | 0,9,1048575}), columns symbolic within a letter-count class, relative bits / sheet index / XTI contents / literal bytes symbolic'},
         outside=['xlsx/ods formula text (XML)', 'formula cell positions (inline in zip/XML-bound readers)', 'string literals (PtgStr: encoding_rs)', 'PtgNum (float formatting)', 'operator / function composition (harnesses c14_x_xls_*: String::split_off/insert/write! on the operand stack exceed 20 GB; kept in the harness file, not admitted to any tier)', 'rows other than the representatives'],
         assumptions=[],
